@@ -211,15 +211,17 @@ SIM = {
     "cpu_serial": "",
     "cpu_openmp": "",
     "opencl": "#define __kernel\n#define __global\n#define kernel\n#define global\n"
-              "static int xv_gid;\nstatic int get_global_id(int d){ (void)d; return xv_gid; }\n",
+              "static int xv_gid, xv_gsize;\nstatic int get_global_id(int d){ (void)d; return xv_gid; }\n"
+              "static int get_global_size(int d){ (void)d; return xv_gsize; }\nstatic int get_global_offset(int d){ (void)d; return 0; }\n"
+              "static int get_work_dim(void){ return 1; }\n",
     "cuda": "#define __global__\n#define __device__\n#define __host__\n#define __forceinline__\n#define __restrict__ restrict\n"
-            "struct xv_dim3 { int x, y, z; };\nstatic struct xv_dim3 blockDim, blockIdx, threadIdx;\n",
+            "struct xv_dim3 { int x, y, z; };\nstatic struct xv_dim3 blockDim, blockIdx, threadIdx, gridDim;\n",
 }
 LAUNCH = {
     "cpu_serial": "xv_KT[k].f(n, xlog);",
     "cpu_openmp": "omp_set_num_threads(2); xv_KT[k].f(n, xlog);",
-    "opencl": "for (int g = 0; g < geo; g++){ xv_gid = g; xv_KT[k].f(n, xlog); }",
-    "cuda": "blockDim.x = b; for (int bi = 0; bi < geo; bi++) for (int ti = 0; ti < b; ti++){ blockIdx.x = bi; threadIdx.x = ti; "
+    "opencl": "xv_gsize = geo; for (int g = 0; g < geo; g++){ xv_gid = g; xv_KT[k].f(n, xlog); }",
+    "cuda": "blockDim.x = b; gridDim.x = geo; for (int bi = 0; bi < geo; bi++) for (int ti = 0; ti < b; ti++){ blockIdx.x = bi; threadIdx.x = ti; "
             "xv_KT[k].f(n, xlog); }",
 }
 DRIVER = f"""#include <stdio.h>
